@@ -249,6 +249,10 @@ def check(prop, tier, seed):
         if post:
             vecs = post(vecs, wd, quick, seed)
         gen_stats.append(st)
+        if plan.get("unique_names"):
+            for i, v in enumerate(vecs):
+                if "name" in v.get("in", {}):
+                    v["in"]["name"] = f"{v['in']['name']}{i}"
         inputs.extend(vecs)
     # B
     for d in plan.get("drive", []):
